@@ -612,7 +612,7 @@ def gen_cases(rng, tier):
     for nu, nv in ((1, 1), (1, 3), (3, 1), (0, 2)):
         add("unit_grid", nu=nu, nv=nv, triangulate=False, generate_uvs=False)
     # -- random larger ones
-    nbig = 24 if quick else 2500
+    nbig = 24 if quick else 1800
     for _ in range(nbig):
         g = rng.choice(["unit_grid", "unit_triangle", "torus", "sphere_uv", "cylinder", "ring", "flat_ring"])
         a, b = rng.randint(2, 40), rng.randint(3, 40)
